@@ -17,8 +17,13 @@ def _tracked(trace):
     """yield events, dropping state/output/sat events of TaskProxy objects that
     never were pool candidates (data-store ghost nodes)."""
     tracked = set()
+    loading = False
     for e in trace:
-        if e["e"] == "spawn":
+        if e["e"] == "boot":
+            loading = bool(e.get("restart"))
+        elif e["e"] == "loaded":
+            loading = False
+        if e["e"] == "spawn" or (loading and e["e"] == "add"):
             tracked.add(e["t"]["obj"])
         if e["e"] in ("state", "output", "sat") and e.get("obj") not in tracked:
             continue
@@ -346,5 +351,89 @@ def c06(scn, run):
     return None
 
 
-ORACLES = {"C06": c06, "C01": c01, "C02": c02, "C03": c03, "C04": c04, "C07": c07, "C09": c09, "C11": c11,
+def c19(scn, run):
+    """stop + restart restores the pool and the workflow parameters; the continued run does what
+    the uninterrupted run does"""
+    tr = run["trace"]
+    last = None
+    for i, e in enumerate(tr):
+        if e["e"] in ("tick_end", "started", "restarted"):
+            if e["e"] == "restarted" and last is not None:
+                before, after = last["snap"], e["snap"]
+                # events between the last tick end and the shutdown may have changed the pool:
+                # take the snapshot recorded at shutdown instead
+                sd = [x for x in tr[:i] if x["e"] == "shutdown"]
+                if sd:
+                    before = sd[-1]["snap"]
+                bt = {tuple(t["id"]): t for t in before["tasks"]}
+                at = {tuple(t["id"]): t for t in after["tasks"]}
+                if set(bt) != set(at):
+                    return f"pool after restart {sorted(at)} differs from pool before {sorted(bt)}"
+                for k, b in bt.items():
+                    a = at[k]
+                    want_status = "waiting" if b["status"] == "preparing" else b["status"]
+                    want_sn = b["submit_num"] - 1 if b["status"] == "preparing" else b["submit_num"]
+                    if a["status"] != want_status:
+                        return f"{list(k)} status {b['status']} came back as {a['status']}"
+                    if a["submit_num"] != want_sn:
+                        return f"{list(k)} submit number {b['submit_num']} ({b['status']}) came back as {a['submit_num']}"
+                    for fld in ("flows", "held", "outputs", "sat"):
+                        if a[fld] != b[fld]:
+                            return f"{list(k)} {fld} {b[fld]} came back as {a[fld]} after restart"
+                for fld in ("hold_point", "to_hold", "stop_task", "flow_counter", "abs_done"):
+                    if before[fld] != after[fld]:
+                        return f"{fld} {before[fld]} came back as {after[fld]} after restart"
+                if before["stop_point"] != after["stop_point"] and not (
+                        sd and sd[-1]["reason"] == "AUTOMATIC"):
+                    return f"stop point {before['stop_point']} came back as {after['stop_point']}"
+            last = e
+    other_ops = [o for o in scn.get("ops", []) if o["cmd"] != "restart"]
+    if run.get("baseline") and not run["baseline"].get("error") and not run["meta"].get("error") and not other_ops:
+        b, a = run["baseline"]["summary"], run["summary"]
+        if run["baseline"]["stop"] == run["meta"]["stop"] or run["meta"]["stop"] in ("AUTOMATIC", "quiescent"):
+            if b["submitted"] != a["submitted"]:
+                return (f"with restarts the run submitted {a['submitted']} but the uninterrupted run "
+                        f"submitted {b['submitted']}")
+            if b["outputs"] != a["outputs"]:
+                bd, ad = {tuple(k): v for k, v in b["outputs"]}, {tuple(k): v for k, v in a["outputs"]}
+                diff = {k: (bd.get(k), ad.get(k)) for k in set(bd) | set(ad) if bd.get(k) != ad.get(k)}
+                return f"final outputs differ from the uninterrupted run (uninterrupted, restarted): {diff}"
+    return None
+
+
+def c43(scn, run):
+    tr = run["trace"]
+    stop_point = None
+    manual = {tuple(x["id"]) for x in tr if x["e"] == "state" and x.get("manual")}
+    for e in tr:
+        if e["e"] in ("tick_end", "started", "restarted"):
+            stop_point = e["snap"]["stop_point"]
+        elif e["e"] == "cmd_stop_point":
+            stop_point = e["point"]
+        elif e["e"] == "submit" and stop_point is not None:
+            for p, n, sn in e["jobs"]:
+                if p > stop_point and (p, n) not in manual:
+                    return f"{p}/{n} submitted beyond the stop point {stop_point}"
+        elif e["e"] == "shutdown":
+            if e["reason"] == "REQUEST(CLEAN)":
+                for t in e["snap"]["tasks"]:
+                    if t["status"] in ("submitted", "running"):
+                        return f"clean stop with active job {t['id']} ({t['status']})"
+        elif e["e"] == "stop_task_done":
+            pnt, name = e["task"].split("/")
+            ok = any(x["e"] == "output" and x["id"] == [int(pnt), name] and "succeeded" in x["out"] for x in tr)
+            if not ok:
+                return f"stopped after stop task {e['task']} although it has not succeeded"
+    # with a stop point the workflow shuts down once nothing at or before it remains to run
+    sp_cmds = [e for e in tr if e["e"] == "cmd_stop_point"]
+    if sp_cmds and run["meta"]["stop"] == "quiescent":
+        lastsnap = [e for e in tr if e["e"] == "tick_end"][-1]["snap"]
+        # (finished-but-incomplete tasks beyond the stop point legitimately keep the scheduler up: stall)
+        if all(t["id"][0] > lastsnap["stop_point"] and t["status"] == "waiting" for t in lastsnap["tasks"]) \
+                and not lastsnap["paused"] and not lastsnap["stop_mode"]:
+            return f"nothing at or before the stop point {lastsnap['stop_point']} remains but the scheduler did not shut down"
+    return None
+
+
+ORACLES = {"C06": c06, "C19": c19, "C43": c43, "C01": c01, "C02": c02, "C03": c03, "C04": c04, "C07": c07, "C09": c09, "C11": c11,
            "C25": c25, "C26": c26}
